@@ -150,6 +150,15 @@ class Plugin:
                     return self.consume(p, depth, kind)
                 return ("SExposed", "method .%s at line %d" % (fname, p.lineno))
         if isinstance(p, ast.Attribute) and p.value is node:
+            gp = getattr(p, "_parent", None)
+            if isinstance(gp, ast.Call) and gp.func is p:
+                # method called on the set itself
+                m = p.attr
+                if m in SET_MUT or m in ("issubset", "issuperset", "isdisjoint", "__contains__"):
+                    return ("SMember", "method .%s at line %d" % (m, gp.lineno))
+                if m in ("union", "intersection", "difference", "symmetric_difference", "copy"):
+                    return self.consume(gp, depth, kind)
+                return ("SExposed", "method .%s at line %d" % (m, gp.lineno))
             return self.consume(p, depth, kind)
         if isinstance(p, ast.Compare):
             if any(c is node for c in p.comparators) and all(isinstance(o, (ast.In, ast.NotIn)) for o in p.ops):
@@ -177,6 +186,22 @@ class Plugin:
         if isinstance(p, ast.Return):
             fn = self.enclosing(p, (ast.FunctionDef, ast.AsyncFunctionDef))
             return self.call_sites(fn, depth)
+        if isinstance(p, ast.arguments):
+            # default value of a parameter: all uses of the parameter
+            fn = p._parent
+            names = [a.arg for a in p.posonlyargs + p.args]
+            pname = None
+            for i, d in enumerate(p.defaults):
+                if d is node:
+                    pname = names[len(names) - len(p.defaults) + i]
+            for k, d in zip(p.kwonlyargs, p.kw_defaults):
+                if d is node:
+                    pname = k.arg
+            if pname is None:
+                return ("SExposed", "default value at line %d" % node.lineno)
+            rs = [self.consume(n, depth + 1) for n in ast.walk(fn) if isinstance(n, ast.Name) and n.id == pname and isinstance(n.ctx, ast.Load)]
+            w = weakest(rs) or ("SSize", "never read")
+            return (w[0], "default of parameter %s: %s" % (pname, w[1]))
         if isinstance(p, ast.For) and p.iter is node:
             return ("SExposed", "for-loop over it at line %d" % p.lineno)
         if isinstance(p, ast.Expr):
